@@ -539,6 +539,17 @@ def absorb_aspects(rep, pid, t, recs, aspects, describe):
                 body = ("a = run(%r, %r, K)\nK2 = Kripke(S=list(K.states()), R=list(K.transitions()), L={s: ({'p', 'q'} - set(K.labels(s))) for s in K.states()})\n"
                         "run(%r, %r, K2)\nb = run(%r, %r, K)\nbad = [] if a == b else ['same call returned %%r, then (after a call on another structure) %%r' %% (a, b)]\n"
                         % (rec['logic'], rec['formula'], rec['logic'], rec['formula'], rec['logic'], rec['formula']))
+            elif a == 'determ_args':
+                k2 = "K2 = Kripke(S=list(K.states()), R=list(K.transitions()), L={s: ({'p', 'q'} - set(K.labels(s))) for s in K.states()})\n"
+                tail = "bad = [] if a == b else ['same call returned %r, then (after a call of the same checker with other arguments on another structure) %r' % (a, b)]\n"
+                if opts.get('fair') is None:
+                    body = ("a = run(%r, %r, K)\n" % (rec['logic'], rec['formula']) + k2 + "run(%r, %r, K2, F=[set(K2.states())])\nb = run(%r, %r, K)\n" % (rec['logic'], rec['formula'], rec['logic'], rec['formula']) + tail)
+                else:
+                    mm = dict(model or {})
+                    mm.update(rec.get('fixed') or {})
+                    fs = [[i for i in range(rec['n']) if (True if opts.get('fair_const') else mm.get('f%d_%d' % (k_, i)))] for k_ in range(opts['fair'])]
+                    body = ("F = [set(states[i] for i in s_) for s_ in %r]\na = run(%r, %r, K, F=F)\n" % (fs, rec['logic'], rec['formula']) + k2 +
+                            "run(%r, %r, K2)\nb = run(%r, %r, K, F=F)\n" % (rec['logic'], rec['formula'], rec['logic'], rec['formula']) + tail)
             else:
                 rep.inconclusive('%s: aspect %s sat (no replay template)' % (key, a))
                 continue
@@ -704,7 +715,7 @@ def run_c06(rep, tier):
 # ------------------------------------------------------------------ C07
 def run_c07(rep, tier):
     rep.assumptions += ['heap model of the evaluator: the caller\'s structure is snapshotted bit by bit before the call and compared afterwards (every label set incl. atoms that did not exist before, every successor set, S0, object identities)',
-                        'writes to module globals / class attributes of the interpreted modules make the run inconclusive (none occur today), which is why call sequences longer than call-other-call are not explored']
+                        'module-level names rebound through `global` and mutable module-level containers live in the VM for the whole harness (all calls of a history see them); class attributes rebound at run time are not modelled']
     rep.cov['trusted_base'] = TRUSTED
     rep.cov['explanation'] = ('on the symbolic runs of all three checkers (with and without fairness, text and object formulas): the solver proves no bit of the caller\'s structure differs from its snapshot; '
                               'no label/successor set is shared with the result; the formula prints as before; the same call repeated after an interleaved call of the same formula on another structure returns an equal vector')
@@ -720,9 +731,9 @@ def run_c07(rep, tier):
     tasks += [('LTL', 2, [x], dict(o)) for x in ltlf] + [('CTLS', 2, [x], dict(o)) for x in ctlsf]
     tasks += [('CTL', 2, ch, dict(o, fair=1, ctls_oracle=True, outside_d7=False)) for ch in chunks(ctlf[3:], 8)]
     tasks += [('CTLS', 2, ch, dict(o, fair=1, ctls_oracle=True, outside_d7=False)) for ch in chunks(ctlsf + ctlf[7:13], 3)]
-    done = run_tasks(rep, 'C07', tasks, ('pure', 'determ', 'recall_same', 'textobj', 'unwind', 'after_edit'), 'the call leaves K and the formula unchanged; repeating it (also after a call on another structure) gives an equal set',
+    done = run_tasks(rep, 'C07', tasks, ('pure', 'determ', 'determ_args', 'recall_same', 'textobj', 'unwind', 'after_edit'), 'the call leaves K and the formula unchanged; repeating it (also after a call on another structure) gives an equal set',
                      mem_heavy=True)
-    rep.cov['bounds'].update(n='3 (CTL) / 2 (LTL, CTL*, fairness)', formulas=len(ctlf) + len(ltlf) + len(ctlsf), histories='call; call(other structure, same formula); call  and  call; mutate result; call')
+    rep.cov['bounds'].update(n='3 (CTL) / 2 (LTL, CTL*, fairness)', formulas=len(ctlf) + len(ltlf) + len(ctlsf), histories='call; call(other structure, same formula); call  |  call; call(other structure, with F if this call has none / without F if it has one); call  |  call; mutate result; call  |  call; caller edits K; call')
     rep.cov['programs'] = len(ctlf) + len(ltlf) + len(ctlsf)
     rep.cov['states'] = done
     rep.cov['transitions'] = done
